@@ -202,7 +202,7 @@ def _flags_of(node, mod: Module) -> int:
     raise AnalysisError(f"regex flags {ast.unparse(node)} not understood")
 
 
-def compiled_regex(p: Project, modname: str, value: ast.AST, where: str) -> Regex:
+def compiled_regex(p: Project, modname: str, value: ast.AST, where: str, env=None) -> Regex:
     """Regex for an `re.compile(<const>, flags)` expression"""
     if not (isinstance(value, ast.Call) and (dotted(value.func) or "").endswith("compile") and value.args):
         raise AnalysisError(f"{where}: not an re.compile(...) call")
@@ -213,7 +213,7 @@ def compiled_regex(p: Project, modname: str, value: ast.AST, where: str) -> Rege
         # a pattern put together from module-level string constants (concatenation, join, f-string of constants)
         from .fold import fold
 
-        text_ = fold(pat, {}, p, modname)
+        text_ = fold(pat, dict(env or {}), p, modname)
         if not isinstance(text_, str):
             raise AnalysisError(f"{where}: regex pattern is not a string constant")
     flags = value.args[1] if len(value.args) > 1 else next((k.value for k in value.keywords if k.arg == "flags"), None)
@@ -236,4 +236,14 @@ def class_regex(p: Project, modname: str, clsname: str, attr: str = "regex") -> 
     v = a[1]
     if isinstance(v, ast.Name):
         return module_regex(p, modname, v.id)
-    return compiled_regex(p, modname, v, f"{p.module(modname).relpath}:{v.lineno}")
+    # constants of the class body the pattern may be generated from (a table of fields, fragments)
+    from .fold import fold
+    from .source import UNK
+
+    env = {}
+    for st in ci.node.body:
+        if isinstance(st, ast.Assign) and len(st.targets) == 1 and isinstance(st.targets[0], ast.Name) and st.targets[0].id != attr:
+            fv = fold(st.value, dict(env), p, modname)
+            if fv is not UNK:
+                env[st.targets[0].id] = fv
+    return compiled_regex(p, modname, v, f"{p.module(modname).relpath}:{v.lineno}", env)
